@@ -7,9 +7,10 @@ against spec/ServerConn.tla and spec/Trace_ServerConn.tla.
     the liveness property that every request is eventually answered.
  2. impl -> spec: pipelined sequences (length 64; every ordered pair of (request class, notify flag)
     over 26 classes occurs) are written as raw bytes to the blocking TCP server, the async TCP server
+    (each also with read/write timeouts configured: separate emission code paths)
     and as raw binary WebSocket messages to the WebSocket server (inline routes and _blocking
     off-reader routes); requests, handler invocations and raw responses are judged by
-    Trace_ServerConn, which also requires the same response fields on all four paths.
+    Trace_ServerConn, which also requires the same response fields on all six paths.
 """
 import json
 import vlib
@@ -29,7 +30,7 @@ def run(ctx):
     if not res["accepted"]:
         raise vlib.ToolError(f"trace not consumed: {res['detail']} line {res['unmatched']}")
     evs = vlib.read_ndjson(tr)
-    runs = st["sequences"] * 4
+    runs = st["sequences"] * 6
     ctx.coverage["evaluations"] += len(evs)
     ctx.coverage["traces_validated_against_impl"] += runs - len(res["mismatches"])
     ctx.coverage["distinct_nontrivial"] = runs
